@@ -36,6 +36,16 @@ partial def canonJ : J → String
   | .bool b => toString b
   | .null => "null"
 
+/-- the module of every data node: a node carries "mod" where it is augmented in (or defined at the top) by
+    another module than its parent's; choices and cases are not on the data path -/
+partial def modPaths (inh : String) (path : List Tok) (j : Json) : List (List Tok × Tok) :=
+  let md := if jstr j "mod" = "" then inh else jstr j "mod"
+  let k := jstr j "k"
+  if k = "choice" || k = "case" then (jarr j "kids").flatMap (modPaths md path)
+  else
+    let p := path ++ [bytesOf (jstr j "n")]
+    (p, bytesOf md) :: (jarr j "kids").flatMap (modPaths md p)
+
 def handle (j : Json) : List (String × Json) :=
   match (jarr j "top").mapM (loadSN mkVK) with
   | none => [("m", "compile-err"), ("s", "compile-err")]
@@ -43,9 +53,10 @@ def handle (j : Json) : List (String × Json) :=
     let root := loadDN (jobj j "data")
     let user := (jarr j "top").flatMap userOrdered
     let want := walkOrd user true root
-    let modName := bytesOf "m"
-    let jr := toJ id true modName top root
-    let jp := toJ id false modName top root
+    let mods := (jarr j "top").flatMap (modPaths "m" [])
+    let mo : List Tok → Tok := fun p => (mods.lookup p).getD (bytesOf "m")
+    let jr := toJ id true mo top root
+    let jp := toJ id false mo top root
     let back (o : Option DN) := match o with
       | some d => if walkOrd user true d = want then "same" else "DIFF " ++ walkOrd user true d
       | none => "decode-err"
